@@ -285,6 +285,14 @@ static void op_case(Harness &H, Cmp &C, const std::string &d0, const std::vector
       cmp_spline("X4", X<4>{} * a, [&](size_t j) { return r_x(refarr(a, j, oa + 1), 4, xm(j)); });
     }
     cmp_spline("V", SplineOperator{b} * a, [&](size_t j) { return ivl(a, j) < 0 ? MArr(oa + ob + 1) : r_mul(refarr(b, j, ob + 1), refarr(a, j, oa + 1)); });
+    // scalars of another (narrower) floating type and of integral types in operator expressions: the inputs
+    // 3.0f, 7.0f, 3 are exactly representable, so the result must still be at rounding level of the data type
+    auto scaled = [&](MArr m, const mpq_class &f) { for (auto &e : m) e = e * MQ(f); return m; };
+    cmp_spline("X1/3f", (X<1>{} / 3.0f) * a, [&](size_t j) { return scaled(r_x(refarr(a, j, oa + 1), 1, xm(j)), mq(1, 3)); });
+    cmp_spline("I/7f", (IdentityOperator{} / 7.0f) * b, [&](size_t j) { return scaled(refarr(b, j, ob + 1), mq(1, 7)); });
+    cmp_spline("3f*Dx1", (3.0f * Dx<1>{}) * a, [&](size_t j) { return scaled(r_dx(refarr(a, j, oa + 1), 1), mq(3)); });
+    cmp_spline("X1/3", (X<1>{} / 3) * a, [&](size_t j) { return scaled(r_x(refarr(a, j, oa + 1), 1, xm(j)), mq(1, 3)); });
+    cmp_spline("X1/7.0", (X<1>{} / 7.0) * b, [&](size_t j) { return scaled(r_x(refarr(b, j, ob + 1), 1, xm(j)), mq(1, 7)); });
     cmp_spline("X1*Dx1-2", (X<1>{} * Dx<1>{} - 2) * a, [&](size_t j) {
       MArr t = r_x(r_dx(refarr(a, j, oa + 1), 1), 1, xm(j)), s = refarr(a, j, oa + 1);
       for (auto &e : s) e = e * MQ(mpq_class(-2));
